@@ -2,7 +2,7 @@
    an identifiable element with a referrer is moved to another package (its paths and the reference text follow), a
    second element is then moved next to it with move_element_here_at and gets a unique name. *)
 From AV Require Import Base.Bytes Base.Outcome Hash.HashModel Tree.Heap Tree.Ops Tree.Script Tree.Inv Tree.InvProofs.
-From AV Require Import Tree.Index Tree.Refs Tree.IndexProofsBridge Tree.IndexProofsTiny Tree.IndexProofsClosed.
+From AV Require Import Tree.Index Tree.IndexProofsBase Tree.Refs Tree.IndexProofsBridge Tree.IndexProofsTiny Tree.IndexProofsClosed.
 Import Tiny.
 Open Scope string_scope.
 Open Scope list_scope.
@@ -38,3 +38,36 @@ Example move_demo2_content :
   idents_of (wof move_demo2) 0 = [(BS "/A", 2); (BS "/B/T", 11); (BS "/B", 8); (BS "/B/S", 5); (BS "/B/S_1", 14)] /\
   origins_list (wof move_demo2) 0 = [(BS "/B", [7]); (BS "/B/S", [13])].
 Proof. vm_compute. split; reflexivity. Qed.
+
+(* ---------- finding class K05-move-late: the move fails after the element was unlinked, re-parented and re-keyed.
+   /A/Sbcd (5) is referenced by 9; moving it into /Bbcdefgh makes the new reference text "/Bbcdefgh/Sbcd" longer than the
+   reference type allows: the rewrite of the referrer fails, the call returns an error, the referrer list of "/A/Sbcd" is
+   gone while the reference 9 still has that text. *)
+Definition ml_pre : list op :=
+  setup ++ [OpCreateNamed 1 nPKG (BS "A"); OpCreateSub 2 nELEMENTS; OpCreateNamed 4 nSYSTEM (BS "Sbcd"); OpCreateNamed 4 nSYSTEM (BS "T");
+            OpCreateSub 7 nREF; OpSetRefTarget 9 5; OpCreateNamed 1 nPKG (BS "Bbcdefgh"); OpCreateSub 10 nELEMENTS].
+Definition ml_op : op := OpMove 12 5.
+Example K05_move_late_refuted :
+  (TreeFacts (wof ml_pre) /\ Inv04 tiny tiny_check_fn (wof ml_pre) /\ Inv05 tiny (wof ml_pre)) /\
+  Known05 tiny tiny_el tiny_en tiny_check_fn LATEST [] (wof ml_pre) ml_op = true /\
+  (exists w', Tiny.run ml_op (wof ml_pre) = Val (ER IncorrectContentType, w')) /\
+  ~ Inv05 tiny (wof (ml_pre ++ [ml_op])).
+Proof.
+  split; [apply script_invm; vm_compute; reflexivity|].
+  split; [vm_compute; reflexivity|]. split; [eexists; vm_compute; reflexivity|].
+  intros HI. pose proof (i5_exact _ _ HI 0) as HE. unfold RefsExact in HE.
+  destruct (model_at (wof (ml_pre ++ [ml_op])) 0) as [x|] eqn:Hx; [|vm_compute in Hx; discriminate Hx].
+  destruct (HE x eq_refl (BS "/A/Sbcd")) as (_ & Hiff). vm_compute in Hx. injection Hx as <-.
+  set (W := wof (ml_pre ++ [ml_op])) in *.
+  assert (C01 : child_of W 0 1) by (eexists; split; [vm_compute; reflexivity|cbn; auto 10]).
+  assert (C12 : child_of W 1 2) by (eexists; split; [vm_compute; reflexivity|cbn; auto 10]).
+  assert (C24 : child_of W 2 4) by (eexists; split; [vm_compute; reflexivity|cbn; auto 10]).
+  assert (C47 : child_of W 4 7) by (eexists; split; [vm_compute; reflexivity|cbn; auto 10]).
+  assert (C79 : child_of W 7 9) by (eexists; split; [vm_compute; reflexivity|cbn; auto 10]).
+  assert (HR : RefSet tiny W 0 (BS "/A/Sbcd") 9).
+  { split; [|vm_compute; reflexivity]. eexists. split; [vm_compute; reflexivity|]. cbn [m_root].
+    eapply (IndexProofsBase.reach_step tiny); [|exact C79]. eapply (IndexProofsBase.reach_step tiny); [|exact C47].
+    eapply (IndexProofsBase.reach_step tiny); [|exact C24]. eapply (IndexProofsBase.reach_step tiny); [|exact C12].
+    eapply (IndexProofsBase.reach_step tiny); [|exact C01]. apply (IndexProofsBase.reach_refl tiny). }
+  apply Hiff in HR. vm_compute in HR. exact HR.
+Qed.
